@@ -273,36 +273,42 @@ def normalise (s : Str) : Str :=
 
 def nonN (s : Str) : Nat := s.length - s.countP (· = 'N')
 
+/-- The documented search parameters of one adapter of class `cls` (sequence, error rate, overlap, …). -/
+def buildPart (p : Part) (base : Base) (cls : Cls) (name : Option Str) (fa : Bool) : Except Kind (Single × Option Value) :=
+  let s := paramSem p.params
+  let sq := normalise (expandRuns p.runs)
+  let e := s.e.getD base.e
+  let indels := s.indels.getD base.indels
+  let n := nonN sq
+  -- "a value of 1 or greater ... is converted to a rate by dividing it by the number of non-N characters"
+  let divisor := if e.ge1 ∧ n ≠ 0 then n else 1
+  let o := match s.o with
+    | some v => if v.gtNat sq.length then .int sq.length else v
+    | none => base.o
+  -- anchored adapters "always need to occur at full length"; otherwise the overlap cannot exceed the adapter
+  let overlap := if p.restr.anchored then .int sq.length else if o.gtNat sq.length then .int sq.length else o
+  let aw := base.adapterWildcards && !sq.all isACGT
+  if aw ∧ n = 0 then .error .cmdline                       -- only N wildcards
+  else if p.restr.anchored ∧ ¬ indels.truthy ∧ e.den * divisor < e.numer then .error .cmdline   -- rate above 1 (anchored, no indels)
+  else .ok (⟨cls, sq, name, e, divisor, overlap, indels, .bool base.readWildcards, aw, fa⟩, s.required)
+
 /-- One adapter (not linked, or one half of a linked adapter) as documented.
     `t`: 5', 3' or `-b` position; `inLinked`: half of a linked adapter; `name`: the name it gets.
     Order of the checks as in the implementation (all failures are of the same kind). -/
 def meaningPart (t : AType) (inLinked : Bool) (p : Part) (base : Base) (name : Option Str) : Except Kind (Single × Option Value) :=
   if !paramsConsistent p.params then .error .cmdline
   else
-    let s := paramSem p.params
-    match classOf t p.restr s.rightmost with
+    match classOf t p.restr (paramSem p.params).rightmost with
     | none => .error .cmdline                                    -- restriction or `rightmost` not allowed for this adapter type
     | some cls =>
-      if s.o.isSome ∧ p.restr.anchored then .error .cmdline      -- "The minimum overlap length cannot be set for anchored adapters"
-      else if !inLinked ∧ s.required.isSome then .error .cmdline -- `required`/`optional`: linked adapters only
+      -- "The minimum overlap length cannot be set for anchored adapters"
+      if (paramSem p.params).o.isSome ∧ p.restr.anchored then .error .cmdline
+      -- `required`/`optional`: linked adapters only
+      else if !inLinked ∧ (paramSem p.params).required.isSome then .error .cmdline
       else
-        let sq := normalise (expandRuns p.runs)
-        let e := s.e.getD base.e
-        let indels := s.indels.getD base.indels
-        let n := nonN sq
-        -- "a value of 1 or greater ... is converted to a rate by dividing it by the number of non-N characters"
-        let divisor := if e.ge1 ∧ n ≠ 0 then n else 1
-        let o := match s.o with
-          | some v => if v.gtNat sq.length then .int sq.length else v
-          | none => base.o
-        -- anchored adapters "always need to occur at full length"; otherwise the overlap cannot exceed the adapter
-        let overlap := if p.restr.anchored then .int sq.length else if o.gtNat sq.length then .int sq.length else o
-        let aw := base.adapterWildcards && !sq.all isACGT
         -- `anywhere` is described for regular 5'/3' adapters (ignored elsewhere)
-        let fa := !inLinked && s.anywhere && (cls == .front || cls == .back || cls == .rightmostFront)
-        if aw ∧ n = 0 then .error .cmdline                       -- only N wildcards
-        else if p.restr.anchored ∧ ¬ indels.truthy ∧ e.den * divisor < e.numer then .error .cmdline   -- rate above 1 (anchored, no indels)
-        else .ok (⟨cls, sq, name, e, divisor, overlap, indels, .bool base.readWildcards, aw, fa⟩, s.required)
+        buildPart p base cls name
+          (!inLinked && (paramSem p.params).anywhere && (cls == .front || cls == .back || cls == .rightmostFront))
 
 def optOr (a b : Option Str) : Option Str := match a with | some x => some x | none => b
 
